@@ -78,6 +78,16 @@ func (w *World) foldOnce(p *packages.Package, was map[[2]string]bool) bool {
 			if sig.Variadic() || sig.TypeParams() != nil || sig.RecvTypeParams() != nil {
 				continue
 			}
+			// named results are variables of the helper that its caller has no declaration for
+			namedResult := false
+			if fd.Type.Results != nil {
+				for _, fl := range fd.Type.Results.List {
+					namedResult = namedResult || len(fl.Names) > 0
+				}
+			}
+			if namedResult {
+				continue
+			}
 			bad := false
 			ast.Inspect(fd.Body, func(n ast.Node) bool {
 				switch x := n.(type) {
@@ -272,6 +282,25 @@ func (w *World) foldInto(p *packages.Package, caller, hfd *ast.FuncDecl, h *type
 		if !bind(sig.Params().At(i), call.Args[i]) {
 			return false
 		}
+	}
+	// every variable of the helper's signature that its body mentions must have found its counterpart
+	// in the caller (a named result, for one, has none): otherwise the spliced body would use a
+	// variable nothing declares
+	orphan := false
+	ast.Inspect(hfd.Body, func(n ast.Node) bool {
+		if id, ok := n.(*ast.Ident); ok {
+			if v, isVar := p.TypesInfo.Uses[id].(*types.Var); isVar && !v.IsField() {
+				inSig := hfd.Type.Pos() <= v.Pos() && v.Pos() < hfd.Body.Pos()
+				inRecv := hfd.Recv != nil && hfd.Recv.Pos() <= v.Pos() && v.Pos() < hfd.Recv.End()
+				if _, bound := subst[v]; (inSig || inRecv) && !bound {
+					orphan = true
+				}
+			}
+		}
+		return !orphan
+	})
+	if orphan {
+		return false
 	}
 	ast.Inspect(hfd.Body, func(n ast.Node) bool {
 		if id, ok := n.(*ast.Ident); ok {
